@@ -469,7 +469,9 @@ pub fn type_groups_limited(udf: &ScalarUDF, max_groups: usize, max_probes: usize
             }
         }
         if canonical.len() >= 2 && canonical.iter().all(dict_ok) {
-            let v: Vec<DataType> = canonical.iter().map(|t| Dictionary(Box::new(Int8), Box::new(t.clone()))).collect();
+            // Int16 keys: functions that merge the dictionaries of all arguments into one result
+            // dictionary must have room for the union of the (padded) dictionaries
+            let v: Vec<DataType> = canonical.iter().map(|t| Dictionary(Box::new(Int16), Box::new(t.clone()))).collect();
             push("dict".to_string(), v, &mut variants);
         }
         // members found by probing that are not whole-list substitutions (mixed encodings)
